@@ -150,7 +150,7 @@ func vC01(seed int64, count int, extra []string) {
 		g := newGen(seed*1000003 + int64(i))
 		name := "p" + strconv.Itoa(i)
 		fs := g.program(name)
-		l := &glayout{r: g.r, plain: i%2 == 0}
+		l := &glayout{r: g.r, plain: i%2 == 0, minParens: i%3 == 1} // a third of the programs carry only the parentheses the operator table requires
 		var sb strings.Builder
 		for _, f := range fs {
 			sb.WriteString(f.src(l, nil) + "\n")
